@@ -1,8 +1,13 @@
 package main
 
 import (
+	"fmt"
+	"os"
+	"path/filepath"
+	"strings"
 	"time"
 
+	"verif/internal/gen"
 	"verif/internal/h"
 )
 
@@ -12,6 +17,70 @@ func c11(c *h.Ctx) {
 	anchors := []string{"pkg/runner/runner.go", "pkg/output/output.go", "pkg/executor/executor.go", "pkg/scheduler/scheduler.go", "pkg/variables/variables.go"}
 	runWorkers(c, workerOpts{Mode: "output", Shards: 8, Timeout: 20 * time.Minute})
 	runWorkers(c, workerOpts{Mode: "output", Race: true, Shards: 8, Timeout: 20 * time.Minute, Anchors: anchors})
+	c11cli(c)
+}
+
+// c11cli: the same hand-off through the binary; task names come from (quoted) YAML keys.
+func c11cli(c *h.Ctx) {
+	names := []string{"build", "lint:go", "my-task", "a.b", "x y", "1st", "UPPER", "mixedCase", "t@sk", "a/b", "dollar$", "paren(1)", "q?", "semi;colon", "tilde~", "plus+", "eq=sign", "hash#1", "quote'", "back\\slash", "brace{}", "star*", "pipe|", "amp&", "comma,", "percent%", "caret^", "bang!", "lt<gt>", "bracket[0]"}
+	n := c.N(len(names), 400)
+	h.Par(n, 16, func(i int) {
+		r := h.NewRand(c.Seed*911+int64(i), "c11cli")
+		name := names[i%len(names)]
+		if i >= len(names) {
+			var b strings.Builder
+			for k := 0; k < r.Range(1, 12); k++ {
+				b.WriteByte(byte(r.Range(33, 126)))
+			}
+			name = b.String()
+		}
+		dir := caseDir(c, fmt.Sprintf("c11.%d", i))
+		defer os.RemoveAll(dir)
+		real, _ := filepath.EvalSymlinks(dir)
+		content := []string{"single line\n", "two\nlines\n", "no trailing newline", "", "unicode żółć ✓\n", "with {{ braces }} inside\n"}[r.Intn(6)]
+		h.WriteFile(real+"/content", content)
+		exportAs := ""
+		if r.Chance(25) {
+			exportAs = "MY_EXPORT"
+		}
+		varName := exportAs
+		if varName == "" {
+			var b strings.Builder
+			for _, ch := range strings.ToUpper(name) + "_OUTPUT" {
+				if ch >= 'A' && ch <= 'Z' || ch >= 'a' && ch <= 'z' || ch >= '0' && ch <= '9' || ch == '_' {
+					b.WriteRune(ch)
+				} else {
+					b.WriteByte('_')
+				}
+			}
+			varName = b.String()
+		}
+		prod := gen.OM{{K: "command", V: []interface{}{"cat '" + real + "/content'"}}}
+		if exportAs != "" {
+			prod.Set("exportAs", exportAs)
+		}
+		cons := gen.OM{{K: "command", V: []interface{}{fmt.Sprintf("printenv '%s' > '%s/got'; true", varName, real)}}}
+		cfg := gen.OM{{K: "tasks", V: gen.OM{{K: name, V: prod}, {K: "the-consumer", V: cons}}},
+			{K: "pipelines", V: gen.OM{{K: "p", V: []interface{}{gen.OM{{K: "name", V: "produce"}, {K: "task", V: name}}, gen.OM{{K: "name", V: "consume"}, {K: "task", V: "the-consumer"}, {K: "depends_on", V: []interface{}{"produce"}}}}}}}}
+		h.WriteFile(real+"/tasks.yaml", gen.YAML(cfg))
+		res := tc{Dir: real}.run(c, "-o", "raw", "p")
+		c.Eval(1)
+		got := h.ReadFile(real + "/got")
+		cas := map[string]interface{}{"task_name": name, "variable": varName, "content": content, "consumer_saw": got, "exit": res.Exit, "stderr": tail(stripANSI(string(res.Stderr)), 400)}
+		if crashed, how := res.Crashed(); crashed {
+			c.Violate("cli-crash/"+h.TopFrame(string(res.Stderr)), "taskctl died: "+how, cas)
+			return
+		}
+		if res.Exit != 0 {
+			c.Violate("cli-pipeline-failed", fmt.Sprintf("producer %q -> consumer pipeline failed: %s", name, tail(stripANSI(string(res.Stderr)), 200)), cas)
+			return
+		}
+		if got != content+"\n" {
+			c.Violate("cli-dependant-sees-wrong-output", fmt.Sprintf("task %q: the dependant read %q from $%s, the producer wrote %q", name, got, varName, content), cas)
+		}
+		c.Count("cli_handoffs", 1)
+		c.Nontrivial("cli" + name + content + exportAs)
+	})
 }
 
 func init() { checks["C11"] = checkDef{"exploration", c11} }
